@@ -131,8 +131,8 @@ deriving DecidableEq, Repr
 structure Resolved where
   idx : Nat               -- index of the registered unit in `UNITS`
   unit : UnitRec          -- the registered record (symbol, names, quantities, dimension, offset)
-  mulNum : Int            -- multiple of the returned Unit object = mulNum / mulDen  (exact value;
-  mulDen : Nat            --   for a float unit Python rounds the product to a double)
+  mulNum : Int            -- multiple of the returned Unit object = mulNum / mulDen (not necessarily in
+  mulDen : Nat            --   lowest terms; exact value: for a float unit Python rounds the product)
   mulKind : NumKind
   prefixed : Bool
 
@@ -146,19 +146,12 @@ def mulKindOf : NumKind → NumKind → NumKind
   | .int, .int => .int
   | _, _ => .frac
 
-/-- numerator and denominator of `a/b * c/d` in lowest terms (b, d > 0). -/
-def mulQ (a : Int) (b : Nat) (c : Int) (d : Nat) : Int × Nat :=
-  let n := a * c
-  let m := b * d
-  let g := Nat.gcd n.natAbs m
-  (n / (g : Int), m / g)
-
 /-- `apply_prefix` (units.py:74-80): an offset unit refuses every prefix. -/
 def applyPrefix (p : PrefixRec) (i : Nat) (u : UnitRec) : Except UnitErr Resolved :=
   if u.offNum != 0 then .error .invalidPrefix
   else
-    let q := mulQ p.mulNum p.mulDen u.mulNum u.mulDen
-    .ok { idx := i, unit := u, mulNum := q.1, mulDen := q.2, mulKind := mulKindOf p.mulKind u.mulKind, prefixed := true }
+    .ok { idx := i, unit := u, mulNum := (p.mulNum : Int) * u.mulNum, mulDen := p.mulDen * u.mulDen,
+          mulKind := mulKindOf p.mulKind u.mulKind, prefixed := true }
 
 def UnitTable.unit (t : UnitTable) (i : Nat) : UnitRec := t.units.getD i default
 
@@ -170,5 +163,26 @@ def lookupUnit (t : UnitTable) (name : List Nat) : Except UnitErr (Option Resolv
     let u := t.unit i
     .ok (some { idx := i, unit := u, mulNum := u.mulNum, mulDen := u.mulDen, mulKind := u.mulKind, prefixed := false })
   | some ⟨i, some p⟩ => (applyPrefix p i (t.unit i)).map some
+
+/-! ### all readings of a spelling (used to decide the hypothesis of `C13_prefix_unique`) -/
+
+/-- every (prefix, unit index) reading of `w`, in the order the loop of `lookup_unit` tries them -/
+def readings (names symbols : List (List Nat × Nat)) (w : List Nat) : List PrefixRec → List (PrefixRec × Nat)
+  | [] => []
+  | p :: ps =>
+    (((stripPrefix p.name w).bind (assoc names)).toList.map (fun i => (p, i))) ++
+    (((stripPrefix p.sym w).bind (assoc symbols)).toList.map (fun i => (p, i))) ++
+    readings names symbols w ps
+
+def sameMultB (p q : PrefixRec) : Bool :=
+  Nat.beq p.mulNum q.mulNum && Nat.beq p.mulDen q.mulDen && decide (p.mulKind = q.mulKind)
+
+/-- the hypothesis of `C13_prefix_unique`, decided: not a registered spelling, at least one reading,
+    and all readings agree on the unit and on the multiplier -/
+def uniqueReading (t : UnitTable) (w : List Nat) : Option (PrefixRec × Nat) :=
+  if (assoc t.names w).isSome || (assoc t.symbols w).isSome then none else
+  match readings t.names t.symbols w t.prefixes with
+  | [] => none
+  | (p, i) :: rest => if rest.all (fun x => Nat.beq x.2 i && sameMultB x.1 p) then some (p, i) else none
 
 end KaVerif.Units
